@@ -1133,6 +1133,12 @@ class Driver(object):
                 nb = len([b for b in jr['bodies'] if b['alias'] == st['alias'] and not b.get('inner')])
                 if nb != e['bodyRuns']:
                     self._mm(out, 'pbodies', x, e['bodyRuns'], nb, 'wrapped body executed during replay')
+                # an intercepted call made by an original that runs during the replay (run-original on a missing key) is
+                # answered from the recording or fails with a missing key - its body never runs live
+                ninner = len([b for b in jr['bodies'] if b.get('inner')])
+                if ninner:
+                    self._mm(out, 'pbodies', x, 0, ninner, 'body of an intercepted call made from inside a running original '
+                                                           'executed during replay')
             elif e['kind'] == 'pctl' and st['kind'] == 'playdata':
                 got = jr['token']        # projected when it was observed (a later step may mutate the object)
                 if exp_seen[0] == 'data' and got != exp_seen:
